@@ -95,6 +95,20 @@ def run_property(prop, module, tier, configs, explanation, assumptions, explain=
                 ctx._crates[k] = facts.load(dirs, cfg, name, expect_hash=th)
             return ctx._crates[k]
         ctx.crate = crate
+        # enum universes for exhaustive one-hot reasoning
+        import formula as _F
+        _F.ENUMS[:] = [{"Ok", "Err"}, {"V4", "V6"}]
+        try:
+            for cfg in configs:
+                for fname in facts.CONFIGS[cfg][1]:
+                    cr = crate(cfg, fname)
+                    for a in cr.adts.values():
+                        if a.get("kind") == "Enum":
+                            s = {v["name"] for v in a["variants"]}
+                            if s not in _F.ENUMS:
+                                _F.ENUMS.append(s)
+        except facts.FactError:
+            raise
         module.run(ctx)
     except facts.FactError as e:
         fatal = "fact generation failed: %s" % e
